@@ -91,6 +91,11 @@ where
     pub fn get_ref(&self) -> &W {
         self.writer.get_ref()
     }
+
+    /// Drop the writer without writing out the bytes that are still buffered.
+    pub fn discard(self) {
+        let _ = self.writer.into_parts();
+    }
 }
 
 impl<W> Write for BufWriterWithPos<W>
